@@ -1,7 +1,12 @@
+#![allow(dead_code, unused_mut, unused_variables)]
 mod enc;
 mod names;
 mod sess;
 mod corpus;
+mod highlight;
+mod numtower;
+mod reader;
+mod synrules;
 mod gen_cmd;
 mod gen_lang;
 mod rng;
@@ -17,6 +22,10 @@ fn main() {
         "corpus" => corpus::main(&args[2..]),
         "gen" => gen_cmd::main(&args[2..]),
         "eval" => eval_file(&args[2..]),
+        "highlight" => highlight::main(&args[2..]),
+        "reader" => reader::main(&args[2..]),
+        "numtower" => numtower::main(&args[2..]),
+        "synrules" => synrules::main(&args[2..]),
         other => Err(format!("unknown command {}", other)),
     };
     if let Err(e) = r {
